@@ -561,9 +561,9 @@ def grad_inner(argnum, ans, A, B):
     else:
         axes = ([A_ndim - 1], [B_ndim - 1])
     if argnum == 0:
-        return lambda G: tensordot_adjoint_0(B, G, axes, A_ndim, B_ndim)
+        return lambda G: match_complex(A, tensordot_adjoint_0(B, G, axes, A_ndim, B_ndim))
     elif argnum == 1:
-        return lambda G: tensordot_adjoint_1(A, G, axes, A_ndim, B_ndim)
+        return lambda G: match_complex(B, tensordot_adjoint_1(A, G, axes, A_ndim, B_ndim))
 
 
 defvjp(anp.inner, partial(grad_inner, 0), partial(grad_inner, 1))
